@@ -38,6 +38,7 @@ def genHex15 (seed : Nat) (maxLen : Nat) (randomCases : Nat) : Array String := I
       for i in idx do
         out := out.push s!"hex index {h} {i}"
         out := out.push s!"hex byteat {h} {i}"
+        out := out.push s!"hex indexmut {h} {i}"
         out := out.push s!"hex rangefrom {h} {i}"
         out := out.push s!"hex rangeto {h} {i}"
         out := out.push s!"hex rangetoincl {h} {i}"
